@@ -87,6 +87,10 @@ def rearm_after_interruption(chk: Check, rule: str) -> None:
 def run(chk: Check) -> None:
     prog = chk.prog
     LOC = _loc(prog)
+    # "every future or child it awaits has completed -> it continues": that is the work chain's own WAITING state (the one that registers the completion callbacks);
+    # each process class gets the state table ITS get_state_classes() describes, whichever class was instantiated first (shared with C01 / C10)
+    from .common import state_tables_built_per_class
+    state_tables_built_per_class(chk, 'TAB-waiting-state')
     sites = waiting_future_writers(chk)
     chk.floor('FUT-multi-writer', len(sites), 2)
     roles = sorted({s.func.qualname for s in sites})
